@@ -8,7 +8,7 @@ RULE = ("small trees with every consulted file assigned owner in {0, 1234}, grou
         "/ no-symlink rule x readFile, readDirs, readDirsHistory, readConfig and (40 %) their WithCallback variants with an accepting callback, with absolute names and (a third of the cases) names relative to the working directory; then the same read after "
         "econf_reset_security_settings; a quarter of the cases add econf_requirePermissions masks (met by all / failed by regular files / failed by directories); the oracle checks on the implementation's fopen log that no file violating a rule in "
         "force is ever opened; the specific code of the first violating file and everything else through the model; "
-        "distinct by scenario")
+        "distinct by scenario; and across threads: the requirements are issued by the main thread, four worker threads read private trees (the settings are documented as process-wide: every worker's result must be the model's for requirement + read)")
 
 def gen(rng, tier):
     n = 1200 if tier == "quick" else 40000
@@ -73,3 +73,60 @@ def oracle(s, ilines):
 
 def nontrivial(s, mlines):
     return any(l.startswith("rc=16") or l.startswith("rc=17") or l.startswith("rc=20") for l in mlines)
+
+
+# ---- the settings are process-wide: a requirement issued by one thread is in force for reads in every other thread ----
+def _thread_case(rng):
+    ow = rng.choice(["-", "0", "1234", "1234"]); gr = rng.choice(["-", "0", "4321", "4321"]); nl = rng.choice(["0", "1", "1"])
+    pre = ["sec %s %s %s" % (ow, gr, nl)]
+    if rng.random() < 0.3: pre.append("perms %s %s" % (rng.choice(["400", "100", "2"]), rng.choice(["100", "2", "20"])))
+    tset = []
+    for _ in range(4):
+        st = laylib.setup(rng, mode=rng.choice([1, 2]), owners=True, links=True)          # handle-specific directory lists only
+        cmds = st["cmds"] + st["pre"] + [st["read"], "dump 0"]
+        files = laylib.files_of(st["cmds"])
+        if files: cmds.append("readfile 1 %s x3d x23" % enc(rng.choice(files)))
+        tset.append(cmds)
+    return pre, tset
+
+def _run_thread_case(pre, tset, what="requirements set by the main thread"):
+    import C18, checklib
+    exe, err = vlib.impl_driver("tsan")
+    if exe is None: raise vlib.BuildError(err)
+    want = [w[len(pre):] for w in vlib.run_model([pre + t for t in tset])]
+    out, rc, se = C18.run_threads(exe, tset, pre=pre)
+    if out is None or rc != 0: return "threaded run ended abnormally: %s %s" % (rc, (se or "")[-600:])
+    got = C18.split_threads(out)
+    for i in range(len(tset)):
+        kind, det = checklib.judge(Scenario(tset[i]), want[i], got[i] if i < len(got) else [], None)
+        if kind: return "%s (%s), read in worker thread %d: %s" % (what, "; ".join(pre), i, det)
+    return None
+
+def extra_check(scens, rng, tier, cov):
+    rounds = 12 if tier == "quick" else 200
+    cov["cross_thread_cases"] = rounds
+    for _ in range(rounds):
+        pre, tset = _thread_case(rng)
+        det = _run_thread_case(pre, tset)
+        if det:
+            body = "# property C16\n# %s\n# 'pre' block: run by the main thread; one block per worker thread; replay: ./check C16 --replay <file>\n" % det.replace("\n", " ")[:1500]
+            body += "pre\n" + "\n".join(pre) + "\n"
+            for i, c in enumerate(tset): body += "thread %d\n" % i + "\n".join(c) + "\n"
+            return body, det
+    return None
+
+def replay(path, pid="C16"):
+    text = open(path).read()
+    if "\nthread 0\n" not in text:
+        import sys, checklib
+        return checklib.replay("C16", path, sys.modules[__name__])
+    pre, tset, cur = [], [], None
+    for ln in text.split("\n"):
+        if ln.startswith("#") or not ln: continue
+        if ln == "pre": cur = pre
+        elif ln.startswith("thread "): cur = []; tset.append(cur)
+        elif cur is not None: cur.append(ln)
+    det = _run_thread_case(pre, tset)
+    if det:
+        print(det[:600]); print("VIOLATION property=%s replay=%s" % (pid, path)); return 1
+    print("replay: no violation"); return 0
